@@ -445,6 +445,10 @@ def run(case, env):
             sel = paths is None or any(
                 _inside(s, pr["path"]) or (oldp and _inside(s, oldp))
                 for s in paths)
+            if fmt == "git" and not case["backups"]:
+                # renames are inferred from content: a selected basis path
+                # may pull in any similar file
+                sel = True
             if sel:
                 footprint.add(i)
                 # --no-backup discards the *reverted* text of a file that is
@@ -479,7 +483,7 @@ def run(case, env):
             after_files, after_snap = _files_on_disk(root)
             non_ascii = any(ord(ch) > 127 for p in before_snap for ch in p
                             if any(_inside(s, p) for s in paths))
-            if non_ascii and not case["force"]:
+            if non_ascii:
                 check(False, "C12/remove-backup-of-non-ascii-name-raises-"
                       "InvalidURL", {"case": case, "paths": paths,
                                      "error": str(e)[:200]})
